@@ -140,7 +140,16 @@ func ruleWitnessesAreCurrent(c *eng.Ctx) {
 	// stale witnesses are forgotten: a delete from the witness table on the false edge of the failover's own membership test
 	isW := func(v ssa.Value) bool {
 		call, isCall := v.(*ssa.Call)
-		return isCall && call.Call.IsInvoke() && call.Call.Method.Name() == "IsWitness"
+		if !isCall || !call.Call.IsInvoke() || call.Call.Method.Name() != "IsWitness" || len(call.Call.Args) < 1 {
+			return false
+		}
+		// the test is made of the witness the loop is looking at (the range key), not only of the one reporting now
+		ex, isEx := eng.Strip(call.Call.Args[0]).(*ssa.Extract)
+		if !isEx {
+			return false
+		}
+		_, isNext := ex.Tuple.(*ssa.Next)
+		return isNext
 	}
 	notW := eng.BoolEdges(fn, isW, false)
 	var dels []ssa.Instruction
